@@ -111,7 +111,9 @@ def impl(case):
         except Exception:  # noqa
             pass
     lag = __import__('numpy').dtype(case['lagtype']).type(case['lag']) if case.get('lagtype') else case['lag']
-    r = mh.md.dynamical_coring(data, lag, iterative=case['iter'])
+    import numpy as _np
+    itflag = {None: case['iter'], 'np': _np.bool_(case['iter']), 'int': int(case['iter'])}[case.get('itertype')]
+    r = mh.md.dynamical_coring(data, lag, iterative=itflag)
     out = tolists(r.trajs)
     res = {'ok': out, 'ntrajs': int(r.ntrajs)}
     # coring the cored result again
